@@ -584,6 +584,9 @@ func (m *Machine) conv(fr *frame, tdst, tsrc types.Type, x Value) Value {
 				if p, ok := m.fakePtrs[t.val]; ok && t.IsConst() {
 					return p
 				}
+				if bp, ok := m.decodeBytePtr(t); ok {
+					return bp
+				}
 				panic(engineErr{"conversion of integer to unsafe.Pointer"})
 			}
 			if isFloat(ud) {
@@ -651,6 +654,10 @@ func (m *Machine) ptrToUintptr(x Value) Value {
 			return Const(64, 0)
 		}
 		base := uint64(0xd000000000) + uint64(p.obj.id)<<24
+		if m.addrObjs == nil {
+			m.addrObjs = map[uint64]*ByteObj{}
+		}
+		m.addrObjs[base] = p.obj
 		return m.tc.Bin(OpAdd, Const(64, base), p.off)
 	}
 	panic(engineErr{fmt.Sprintf("uintptr of %T", x)})
@@ -1549,4 +1556,38 @@ func describeBytes(m *Machine, s ByteSlice) string {
 		sb.WriteString(m.byteAt(s, i).String() + " ")
 	}
 	return sb.String()
+}
+
+// decodeBytePtr recognises base+offset addresses produced by ptrToUintptr for byte objects
+// (pointer arithmetic through uintptr, as in unsafe.Pointer(uintptr(p)+n)).
+func (m *Machine) decodeBytePtr(t *Term) (BytePtr, bool) {
+	var consts uint64
+	var rest *Term
+	var walk func(x *Term) bool
+	walk = func(x *Term) bool {
+		if x.IsConst() {
+			consts += x.val
+			return true
+		}
+		if x.op == OpAdd {
+			return walk(x.args[0]) && walk(x.args[1])
+		}
+		if rest == nil {
+			rest = x
+		} else {
+			rest = m.tc.Bin(OpAdd, rest, x)
+		}
+		return true
+	}
+	walk(t)
+	for base, obj := range m.addrObjs {
+		if consts >= base && consts-base < 1<<24 {
+			off := Const(64, consts-base)
+			if rest != nil {
+				off = m.tc.Bin(OpAdd, off, rest)
+			}
+			return BytePtr{obj: obj, off: off}, true
+		}
+	}
+	return BytePtr{}, false
 }
